@@ -26,7 +26,7 @@ def _replay_chunk(args):
     return calls, out
 
 
-def replay_cases(cases, modname, fname, rep, procs=16):
+def replay_cases(cases, modname, fname, rep, procs=16, artifacts=None):
     n = max(1, min(procs, len(cases) // 20 + 1))
     chunks = [cases[i::n] for i in range(n)]
     calls = 0
@@ -34,6 +34,10 @@ def replay_cases(cases, modname, fname, rep, procs=16):
         for c, out in ex.map(_replay_chunk, [(modname, fname, ch) for ch in chunks]):
             calls += c
             for sig, msg, case in out:
+                if sig.startswith('@'):
+                    if artifacts is not None:
+                        artifacts.append((sig, msg))
+                    continue
                 if sig.startswith('harness-error'):
                     raise RuntimeError('replay function failed: ' + msg)
                 rep.violation(sig, msg, dict(kind='case', replay_fn=modname + ':' + fname, case=case))
@@ -46,6 +50,7 @@ def run(pid, tier, runs, modname, fname, assumptions, rule, sample_fn=None, extr
     states = trans = ncases = 0
     samples = []
     per_run = {}
+    artifacts = []
     only = os.environ.get('VERIF_ONLY')
     for r in runs:
         if only and r.get('name') not in only.split(','):
@@ -62,11 +67,18 @@ def run(pid, tier, runs, modname, fname, assumptions, rule, sample_fn=None, extr
         if cases:
             c = cases[len(cases) // 2]
             samples.append(sample_fn(c) if sample_fn else _trim(c))
-        replay_cases(cases, modname, fname, rep)
+        replay_cases(cases, modname, fname, rep, artifacts=artifacts)
     cov = dict(states=states, transitions=trans, traces_validated_against_impl=ncases, cases_per_run=per_run,
                samples=samples, rule=rule, exhaustive=True,
                checker_cmd='tlc -workers 1 (sharded) on spec/%s ; python replay %s:%s' % (
                    ','.join(sorted({r['module'] for r in runs})), modname, fname))
+    post = getattr(importlib.import_module(modname), 'post_hook', None)
+    if post and not only:
+        extra = post(artifacts, rep, tier)
+        if extra:
+            for k in ('states', 'transitions', 'traces_validated_against_impl'):
+                cov[k] += extra.pop(k, 0)
+            cov.update(extra)
     if extra_cov:
         cov.update(extra_cov)
     return rep.finish(cov, assumptions, level=level)
